@@ -9,6 +9,15 @@ CLAIMS = {
  "C01": ("stateful property-based testing: phase-aware packet-history generator vs reference tunnel NFA + accept/relay logs (rapid)",
          "Generated packet histories (valid, out-of-order, repeated, malformed, after-end probes) are sent over both transports to the in-process gateway wired as in main.go and to the real binary; the observed responses, end-of-stream, accept logs and relayed bytes of harness-owned listeners must be a run of a reference NFA written from the statement. Exploration, not proof.",
          "4 C01"),
+ "C02": ("property-based testing: generated token families and IdP fault sequences vs an independent HS256/claims verifier (rapid)",
+         "Sequences of token presentations and identity-provider state changes are generated around valid tokens; every string gets a verdict MUST-REJECT / MUST-ACCEPT / UNSPECIFIED from the harness's own verifier (stdlib HMAC, JSON, the IdP's own table) and is checked at function level and through the tunnel (TUNNEL_RESPONSE status); minted tokens are checked for lifetime and acceptance; forged tokens must not reach the IdP.",
+         "4 C02"),
+ "C03": ("property-based testing: near-miss generator for channel requests vs reference host policy + endpoint grid accept log (rapid)",
+         "Channel requests that are an allowed entry or one edit away from one (ports, NULs, prefixes, other users, IPv6 spellings, surrogates, odd lengths, over-long sizes) are generated for every selection mode, user and token host; allowed => exactly one connection to exactly the named endpoint, refused => resource-access-denied and no connection to any of the 3 ports x all loopback addresses the harness listens on. In-process and real binary.",
+         "4 C03"),
+ "C04": ("property-based testing (metamorphic over address pairs) vs reference client-address function (rapid)",
+         "Tokens are issued through the repository's own EnrichContext + GeneratePAAToken path from a generated (TCP source, X-Forwarded-For) and presented from a related one; same address => channel, different address => access-denied and no backend connection, verification off => ignored.",
+         "4 C04"),
  "C06": ("property-based testing: generated stream pairs, packetisations and schedules vs byte-exact stream equality + independent packet decoder (rapid)",
          "Two position-dependent byte streams (up to 256 KiB quick / 2 MiB thorough), a split of the client stream into DATA packets (boundary sizes, length fields shorter/longer than carried), a split of the host stream into writes and an interleaving are generated; the host must receive exactly the declared payloads and the client exactly the host stream, every DATA packet decoding strictly. In-process and real binary, both transports.",
          "4 C06"),
